@@ -41,6 +41,30 @@ Theorem C16_mesh3d_quad_centroid_is_embedded_2d_centroid : forall qsqrt, Proper 
 Proof. exact mesh3d_quad_centroid_embedded. Qed.
 Print Assumptions C16_mesh3d_quad_centroid_is_embedded_2d_centroid.
 
+(* vertex clean-up of open polylines: the 3D routine (generated from the source) is the same keep-if-corner scan as the 2D one, with the
+   test |(a - v) x (n - v)| >= tolerance, and on plane-embedded data the siblings keep the same vertices *)
+From LBG Require Import G9_clean C15_polyline C16_polyline.
+Theorem C16_polyline3d_remove_colinear_is_the_scan : forall qsqrt (p : Polyline3R) tol,
+  let L := pl3_vertices p in (3 <= length L)%nat -> length L <> 3%nat ->
+  pl3_vertices (Polyline3D_remove_colinear_vertices qsqrt p tol)
+  = hd (mkV3 0 0 0) L :: gscanp V3 (keep3 qsqrt tol) (hd (mkV3 0 0 0) L) (combine (removelast (tl L)) (tl (tl L))) ++ [last L (mkV3 0 0 0)]
+  /\ pl3_interp (Polyline3D_remove_colinear_vertices qsqrt p tol) = pl3_interp p.
+Proof. exact polyline3_remove_colinear_spec. Qed.
+Print Assumptions C16_polyline3d_remove_colinear_is_the_scan.
+
+Theorem C16_polyline_clean_up_tests_agree_in_the_plane : forall pl, frame_ok pl -> forall qsqrt, Proper (Qeq ==> Qeq) qsqrt ->
+  (forall x, qsqrt (x * x) == Qabs x) -> forall tol a v n,
+  keep3 qsqrt tol (emb pl a) (emb pl v) (emb pl n) = keep2 tol a v n.
+Proof. exact keep_tests_agree. Qed.
+Print Assumptions C16_polyline_clean_up_tests_agree_in_the_plane.
+
+Theorem C16_polyline_siblings_keep_the_same_vertices : forall pl qsqrt (L : list V2) i tol,
+  frame_ok pl -> Proper (Qeq ==> Qeq) qsqrt -> (forall x, qsqrt (x * x) == Qabs x) -> (4 <= length L)%nat ->
+  pl3_vertices (Polyline3D_remove_colinear_vertices qsqrt (mkPolyline3 (map (emb pl) L) i) tol)
+  = map (emb pl) (pl2_vertices (Polyline2D_remove_colinear_vertices (mkPolyline2 L i) tol)).
+Proof. exact polyline_siblings_keep_the_same_vertices. Qed.
+Print Assumptions C16_polyline_siblings_keep_the_same_vertices.
+
 Example C16_quad_nonvacuous :
   let p0 := mkV2 0 0 in let p1 := mkV2 4 0 in let p2 := mkV2 3 2 in let p3 := mkV2 1 2 in
   0 < tri2 p0 p1 p2 /\ 0 < tri2 p2 p3 p0 /\ quad_centroid2 p0 p1 p2 p3 =2= mkV2 2 (8 # 9).
